@@ -195,7 +195,7 @@ def rule_e1(ck, prog, S, spec, ts):
     for name, f in sorted(readers.items()):
         ck.analysed(f)
         try:
-            sums = P.summarize(f)
+            sums = P.summarize(f, fork_helpers=True)
         except P.TooManyPaths:
             ck.undecided("C05-E1", K.site(f, "paths", 0), K.loc(f), "too many paths")
             continue
@@ -303,7 +303,7 @@ def rule_e2(ck, prog, S, spec, ts):
             ck.anchor_lost("C05-E2", "numeric reader %s" % name)
             continue
         tab = {}
-        for ps in P.summarize(f):
+        for ps in P.summarize(f, fork_helpers=True):
             pc = [push_code(c) for c in pushes(ps)]
             tab.setdefault(cause_key(ps), set()).add(tuple(pc))
         tables[name] = tab
